@@ -37,6 +37,24 @@ def install_stubs() -> None:
         return True
     PP.are_mods_equal = are_mods_equal
 
+    def are_intervals_equal(i1, i2):
+        if i1 is None or i2 is None:
+            return i1 is None and i2 is None
+        if len(i1) != len(i2):
+            return False
+        rest = list(i2)
+        for a in i1:
+            hit = -1
+            for k, b in enumerate(rest):
+                if a.start == b.start and a.end == b.end and a.ambiguous == b.ambiguous and are_mods_equal(a.mods, b.mods):
+                    hit = k
+                    break
+            if hit < 0:
+                return False
+            rest.pop(hit)
+        return True
+    PP.are_intervals_equal = are_intervals_equal
+
 
 def _real(x):
     """the substring search runs in the regex C extension: the strings are realisation points anyway; realising them on entry
